@@ -12,7 +12,14 @@ import cmath
 
 import numpy as np
 import numpy.typing as npt
-from scipy.special import sph_harm
+try:
+    from scipy.special import sph_harm
+except ImportError:  # scipy >= 1.17 removed sph_harm
+    from scipy.special import sph_harm_y
+
+    def sph_harm(m, n, theta, phi):
+        """scipy<1.17 signature: (order, degree, azimuth, polar)"""
+        return sph_harm_y(n, m, phi, theta)
 
 # pylint: disable=invalid-name
 # pylint: disable=line-too-long
